@@ -182,6 +182,15 @@ def request : P String := do
   | "applymat" => do
       let F ← pFunc; let A ← list (list pTr)
       pure (showFunc (if F.nurbs then F.nurbsApplyMatrix A else F.bspApplyMatrix A))
+  | "applymatb" => do
+      -- apply_matrix with an array of matrices: batch shape <ab>, then r, then the matrices in C order
+      let F ← pFunc; let ab ← list nat; let r ← nat; let As ← list (list (list pTr))
+      match broadcastShape F.dims ab with
+      | some res =>
+          if res == F.dims then
+            pure (showFunc (if F.nurbs then F.nurbsApplyMatrixB As ab r else F.bspApplyMatrixB As ab r))
+          else pure "err-AssertionError"     -- result has a larger control grid than the knot vectors
+      | none => pure "err-ValueError"
   | "rotate" => do
       let F ← pFunc; let s ← pTr; let c ← pTr
       pure (showFunc (if F.nurbs then F.nurbsApplyMatrix (rot2 s c) else F.bspApplyMatrix (rot2 s c)))
